@@ -34,6 +34,7 @@ func (w *World) applyKnobs() {
 		accountant.SimSetKnob(k, v)
 	}
 	set("truncateDiff", w.Cfg.TruncateDiff)
+	set("initialThroughput", w.Cfg.SignalBuf)
 	set("maxArraySize", w.Cfg.MaxArraySize)
 	set("maxRepeats", w.Cfg.MaxRepeats)
 }
@@ -41,7 +42,7 @@ func (w *World) applyKnobs() {
 var sourceKnobs = map[string]uint64{}
 
 func init() {
-	for _, k := range []string{"truncateDiff", "maxArraySize", "maxRepeats", "truncateVrxTopMark"} {
+	for _, k := range []string{"truncateDiff", "maxArraySize", "maxRepeats", "truncateVrxTopMark", "initialThroughput"} {
 		if v, ok := accountant.SimGetKnob(k); ok {
 			sourceKnobs[k] = v
 		}
